@@ -28,8 +28,7 @@ Plugins == {"go-http", "go-client", "ts-client", "ts-server", "openapiv3"}
 
 \* table of build-level deviations (known findings, see known_findings.json): the failure kind
 \* and the class of the first diagnostic each one prescribes; the guards are in DevGuard below
-DevBuild == {[dev |-> "D_unwrap_unused_import", kind |-> "build", diag |-> "unused"],
-             [dev |-> "D_ts_dup_url", kind |-> "load", diag |-> "redeclared"],
+DevBuild == {[dev |-> "D_ts_dup_url", kind |-> "load", diag |-> "redeclared"],
              [dev |-> "D_client_helper_dup", kind |-> "build", diag |-> "redeclared"],
              [dev |-> "D_server_helper_dup", kind |-> "build", diag |-> "redeclared"],
              [dev |-> "D_service_files_share_package", kind |-> "build", diag |-> "redeclared"]}
@@ -38,10 +37,7 @@ AnyField(s, P(_)) == \E m \in GenMsgs(s) : \E f \in Range(m.fields) : P(f)
 GenServices(s) == UNION {Range(f.services) : f \in GenFiles(s)}
 HeaderNames(sv) == [i \in 1..Len(sv.headers) |-> sv.headers[i].name]
 DevGuard(d, s, subset) ==
-  CASE d = "D_unwrap_unused_import" ->
-         /\ "go-http" \in subset
-         /\ LET P(f) == f.ann.unwrap /\ f.kind # "message" IN AnyField(s, P)
-    [] d = "D_ts_dup_url" ->
+  CASE d = "D_ts_dup_url" ->
          /\ subset = {"ts-server"}
          /\ \E sv \in GenServices(s) : \E me \in Range(sv.methods) :
                /\ me.hasCfg /\ me.verb \in {"GET", "DELETE"} /\ PathVars(me) # {} /\ HasMsg(s, me.in)
